@@ -423,3 +423,59 @@ def ob_high_positions(st: int) -> bool:
 OBLIGATIONS.append(Ob('high_positions', ob_high_positions, ['0 <= st < 59'], timeout=tier(150, 400), data='-',
                       selectors='window of 2 at a selected start 1..59 of a 60-element sequence: position variables against an independent roman-numeral oracle',
                       outside='positions beyond 60; letters beyond the 26th element', stubs='render runs untraced once the start is fixed on the path'))
+
+
+# ---------------------------------------------------------------- skip_unauthorized: start/end flags refer to DISPLAYED elements
+from zExceptions import Unauthorized       # noqa: E402
+
+
+class GuardedHTML(HTML):
+    def guarded_getattr(self, inst, name, *default):
+        return getattr(inst, name)
+
+    def guarded_getitem(self, ob, index):
+        v = ob[index]
+        if getattr(v, 'forbidden', False):
+            raise Unauthorized('item %r' % (index,))
+        return v
+
+
+class GI:
+    def __init__(self, i, forbidden):
+        self.i, self.forbidden = i, forbidden
+
+
+SRC_SKIP = '<dtml-in seq skip_unauthorized%s><dtml-var i>:<dtml-if sequence-start>S</dtml-if><dtml-if sequence-end>E</dtml-if>:<dtml-var sequence-index>,</dtml-in>'
+T_SKIP = {False: cooked(SRC_SKIP % '', GuardedHTML), True: cooked(SRC_SKIP % ' size=9', GuardedHTML)}
+
+
+def make_skip_flags(batch):
+    def ob(f0: bool, f1: bool, f2: bool) -> bool:
+        """with skip_unauthorized the refused elements are not displayed; sequence-start / sequence-end are true ONLY on the first /
+        last displayed element (the statement's wording: an implication - when an edge element is refused the flag may stay false),
+        and exactly there when nothing is refused; sequence-index stays the position in the whole sequence"""
+        fs = [f0, f1, f2]
+        out = T_SKIP[batch](seq=[GI(i, fs[i]) for i in range(3)])
+        shown = [i for i in range(3) if not fs[i]]
+        rows = [r for r in out.split(',') if r]
+        if len(rows) != len(shown):
+            return False
+        for r, i in zip(rows, shown):
+            a, flags, idx = r.split(':')
+            if a != str(i) or idx != str(i):
+                return False
+            if 'S' in flags and i != shown[0]:
+                return False
+            if 'E' in flags and i != shown[-1]:
+                return False
+            if len(shown) == 3 and (('S' in flags) != (i == 0) or ('E' in flags) != (i == 2)):
+                return False
+        return True
+    ob.__name__ = 'ob_skip_flags_%s' % ('batch' if batch else 'plain')
+    return ob
+
+
+for _b in (False, True):
+    OBLIGATIONS.append(Ob('skip_unauthorized_flags' + ('_batch' if _b else ''), make_skip_flags(_b), [], timeout=tier(150, 400),
+                          data='which of 3 elements the item guard refuses (3 symbolic bits)', selectors='dtml-in skip_unauthorized%s on a template class supplying guards' % (' size=9' if _b else ''),
+                          outside='more than 3 elements'))
